@@ -7,3 +7,10 @@ CHECKS = {
          "technique": "bounded symbolic execution of the real Python functions over z3 integer-coded strings; z3 validity query per law and path; concrete replay"},
 }
 NA = {}
+CHECKS["C01"] = {
+ "text": "Exhaustive bounded exploration with solver-enumerated choices (M2): every history of 2 user operations (11 kinds x 2 sides) "
+         "with every 1-slot schedule (thorough: 2 slots, 3 operations, 6 flavours) is run through the real engine over two MockProviders; "
+         "quiescence within 40 fair rounds and equality of both trees are checked on each. Right level: the engine is 4000 lines of "
+         "stateful Python with I/O-like calls; the defects live in particular short histories and schedules, which exhaustive bounded "
+         "enumeration reaches and a test suite samples.",
+ "technique": "bounded exhaustive exploration; user operations and schedule slots are z3 integer choices enumerated by solver-decided branching over the real engine; concrete replay"}
